@@ -1,7 +1,7 @@
 (* Props_C01.v — property theorems for C01 (only statements closed by [exact]). *)
 From Coq Require Import List String Bool.
 Import ListNotations.
-From HolpyV Require Import Kernel Sem SemLemmas TyMatch Sound SoundSubst.
+From HolpyV Require Import Kernel Sem SemLemmas TyMatch Sound SoundSubst StdModel.
 
 (* Soundness of the primitive rules, one theorem per rule: in every standard
    model (every assignment of finite domains to type variables, every valuation
@@ -121,3 +121,19 @@ Example C01_substitution_example :
   | None => False
   end.
 Proof. vm_compute. repeat split; discriminate. Qed.
+
+(* non-vacuity of the hypothesis [Standard DC IC] shared by all rule theorems:
+   for every assignment of carrier sizes there is a standard model, and in it the
+   sequent |- false is not valid (so the theorems above exclude deriving it) *)
+Theorem C01_standard_model_exists : forall DC, Standard DC (IC_fix DC).
+Proof. exact IC_fix_standard. Qed.
+Print Assumptions C01_standard_model_exists.
+
+Example C01_false_not_valid : forall DC, ~ valid DC (IC_fix DC) (mkThm [] (Const "false" BoolT)).
+Proof.
+  intros DC H.
+  set (sig := fun (_ : string) (T : ty) => other0 DC "" (tysem (fun _ => SB) (fun _ => SB) T)).
+  assert (Hv : val_ok DC (fun _ => SB) (fun _ => SB) sig) by (intros n T; apply other0_ok).
+  specialize (H (fun _ => SB) (fun _ => SB) sig sig Hv Hv (fun h Hin => match Hin with end)).
+  vm_compute in H. discriminate.
+Qed.
